@@ -17,7 +17,7 @@ COMMON_INV = """next_state.coins.wf() && (is_tip_906 ==> counts_ok(next_state.co
 FAUC = """forall|q: int| 0 <= q < %s && (#[trigger] txx[q]).kind == TxKind::Faucet ==>
                !(st0.network == NetID::Mainnet && !is_grandfathered(spec_txhash(txx[q])))
                && (!is_grandfathered(spec_txhash(txx[q])) ==> !c0.contains_key(spec_marker(spec_txhash(txx[q]))))"""
-TXS = "forall|h: TxHash| #[trigger] next_state.transactions@.contains_key(h) <==> (st0.transactions@.contains_key(h) || in_batch(txx, %s, h))"
+TXS = "(forall|h: TxHash| #[trigger] next_state.transactions@.contains_key(h) <==> (st0.transactions@.contains_key(h) || in_batch(txx, %s, h))) && (txs_keyed(st0.transactions@) ==> txs_keyed(next_state.transactions@))"
 FEE0 = "next_state.fee_pool == st0.fee_pool && next_state.tips == st0.tips && next_state.transactions == st0.transactions"
 FEE2 = """next_state.fee_pool.0 as int == st0.fee_pool.0 + fsum(txx.take(%s), min_fee_of(st0.fee_multiplier))
           && next_state.tips.0 as int == st0.tips.0 + fsum(txx.take(%s), tip_of(st0.fee_multiplier))
